@@ -156,6 +156,8 @@ def run_check(pid: str, tier: str, jobs: List[Job], functions: List[str], assump
     # 2. jobs
     all_exhausted = True
     for job in jobs:
+        if violations and os.environ.get("VERIF_STOP_ON_VIOLATION"):
+            break  # (my own seeded-change runs: one confirmed violation is enough)
         hname = f"{job.module}.{job.name}"
         # 2a. reachability twin
         tw = chx.explore(job.module, job.name, job.shards, job.twin_budget, job.per_path_timeout, twin=True, max_samples=0)
